@@ -101,3 +101,36 @@ Check C03_cover_sig_apply_sound : forall comp q r cycles restarts fuel t0,
   exists n z, (N.to_nat times <= n)%nat /\
     tm_steps (to_prog comp) n (q, unroll_tape t) = Some (q, z) /\
     tape_eq z (unroll_tape t') /\ canon_tape t'.
+
+(** F14 refutation witnesses *)
+From BB Require Import F14Witness.
+Check C03_application_refuted_F14 :
+  exists comp lim r apps a,
+    run_prover_trace comp lim = Ok (r, apps) /\ In a apps /\
+    app_state a = 14 /\
+    app_before a = mkTape 1 [(2, 6); (3, 1)] [(1, 5)] /\
+    app_rule a = [((false, 0), Plus 1%Z); ((true, 0), Plus (-1)%Z)] /\
+    app_times a = 4 /\
+    app_after a = mkTape 1 [(2, 10); (3, 1)] [(1, 1)] /\
+    apply_rule (app_before a) (app_rule a) = Ok (Some (app_times a), app_after a) /\
+    ~ (exists n z, tm_steps (to_prog comp) n (app_state a, unroll_tape (app_before a)) = Some (app_state a, z) /\
+                   tape_eq z (unroll_tape (app_after a))).
+Check C03_application_not_real_F14 : forall n z,
+  tm_steps (to_prog f14_prog) n (14, unroll_tape (mkTape 1 [(2, 6); (3, 1)] [(1, 5)])) = Some (14, z) ->
+  ~ tape_eq z (unroll_tape (mkTape 1 [(2, 10); (3, 1)] [(1, 1)])).
+Check C03_first_three_applications_real_F14 :
+  (exists k z, (1 <= k)%nat /\
+     tm_steps (to_prog f14_prog) k (14, unroll_tape f14_t0) = Some (14, z) /\
+     tape_eq z (unroll_tape f14_t3)) /\
+  Shifted f14_rule 1 f14_t3 f14_t4 /\ rule_guard f14_rule f14_t3 /\ canon_tape f14_t3 /\
+  (forall n z, tm_steps (to_prog f14_prog) n (14, unroll_tape f14_t3) = Some (14, z) ->
+     ~ tape_eq z (unroll_tape f14_t4)) /\
+  ~ RuleValid (to_prog f14_prog) 14 f14_rule f14_t0.
+Check C03_rule_invalid_F14 :
+  ~ RuleValid (to_prog f14_prog) 14
+      [((false, 0), Plus 1%Z); ((true, 0), Plus (-1)%Z)] (mkTape 1 [(2, 6); (3, 1)] [(1, 5)]).
+(* the literals of the witness are pinned too *)
+Check eq_refl : f14_t0 = mkTape 1 [(2, 6); (3, 1)] [(1, 5)].
+Check eq_refl : f14_t3 = mkTape 1 [(2, 9); (3, 1)] [(1, 2)].
+Check eq_refl : f14_t4 = mkTape 1 [(2, 10); (3, 1)] [(1, 1)].
+Check eq_refl : f14_rule = [((false, 0), Plus 1%Z); ((true, 0), Plus (-1)%Z)].
